@@ -303,7 +303,11 @@ class IMAPClientProxy:
                         await self.push(f"{imap_cmd.tag} BAD {e}\r\n")
                     else:
                         await self.push(f"* BAD {e}\r\n")
-                    return
+
+                    # A command we can not parse is answered with BAD. It is
+                    # not a reason to drop the connection.
+                    #
+                    continue
 
                 # Pass the command on to the command processor to handle.
                 #
